@@ -13,10 +13,13 @@
    arena_step_compose_prune_partial / arena_step_compose_partial for the two compositions (the machine completes with
    the fuels of arena_step, counters of compose_prune, the arena holds a tree of the shape of the structural result
    resp. abstracts to its erasure), and these compositions at the end of an exact history.
-   NOT PROVED (what the full capstone would need): AInv after a composition -- the published postconditions of
+   NOT PROVED: AInv after a composition from the machines' theorems alone -- the published postconditions of
    acompose_prune / arena_compose do not say that no terminal cell is left outside the tree, which the NEXT
-   composition needs (its loop runs over all terminal cells of the slab); and the congruence of compose_prune for
-   cshape.  ArenaHistoryRel.v therefore covers histories with at most one pruned composition. *)
+   composition needs (its loop runs over all terminal cells of the slab).  ArenaHistoryRel.v covers histories with one
+   pruned composition at any position unconditionally; ArenaHistoryGen.v covers every history of apply_func /
+   elimination / pruned compositions modulo the executable check strayb after each composition (with the congruence
+   of the structural models for cshz: ShapeZ.v, ElimShapeZ.v, CPruneShapeZ.v).  The un-pruned machine is related to
+   the inductive tree only (arena_step_compose_partial). *)
 From AT Require Import Num Vec Aff PTree Ops Cells Abs Tree TreeLemmas Cache Reduce Elim CPrune Schema WfC OpsWf History.
 From AT Require Import ArenaCompose AElim AElimBase AElimRefine ElimWne.
 From AT Require ArenaComposeAbs ACPrune ACPruneOps ACPruneRefine ACPruneAll ACPruneCor ACPruneMono.
